@@ -39,6 +39,8 @@ type sourceFragment struct {
 	program            *analysis.ProgramInfo
 	simpleCheckpoint   factstore.FactStoreWithRemove
 	temporalCheckpoint factstore.TemporalFactStore
+	// Predicates that became known with this fragment (and are forgotten when it is popped).
+	introduced []ast.PredicateSym
 }
 
 // Interpreter is an interactive interpreter.
@@ -410,10 +412,15 @@ func (i *Interpreter) Preload(units []parse.SourceUnit, store factstore.FactStor
 
 func (i *Interpreter) pushSourceFragment(pathset string, units []parse.SourceUnit, programInfo *analysis.ProgramInfo) {
 	i.src = append(i.src, pathset)
-	i.sourceFragments[pathset] = &sourceFragment{units, programInfo, i.simpleStore, i.temporalStore}
+	var introduced []ast.PredicateSym
 	for _, decl := range programInfo.Decls {
+		// programInfo.Decls also lists the predicates of earlier fragments that this one mentions.
+		if _, known := i.knownPredicates[decl.DeclaredAtom.Predicate]; !known {
+			introduced = append(introduced, decl.DeclaredAtom.Predicate)
+		}
 		i.knownPredicates[decl.DeclaredAtom.Predicate] = *decl
 	}
+	i.sourceFragments[pathset] = &sourceFragment{units, programInfo, i.simpleStore, i.temporalStore, introduced}
 	i.simpleStore = factstore.NewTeeingStore(i.simpleStore)
 	i.temporalStore = factstore.NewTeeingTemporalStore(i.temporalStore)
 	i.updateCombinedStore()
@@ -451,8 +458,8 @@ func (i *Interpreter) popSourceFragment() *sourceFragment {
 	f := i.sourceFragments[path]
 	i.src = i.src[:l-1]
 	delete(i.sourceFragments, path)
-	for _, decl := range f.program.Decls {
-		delete(i.knownPredicates, decl.DeclaredAtom.Predicate)
+	for _, sym := range f.introduced {
+		delete(i.knownPredicates, sym)
 	}
 	i.simpleStore = f.simpleCheckpoint
 	i.temporalStore = f.temporalCheckpoint
